@@ -459,6 +459,9 @@ var vpTemplates = []string{
 	/* 42 */ "local s = mk(function(\x01)\n local \x02 = \x01\n return \x02\nend)(function(\x03)\n return \x03\nend)\n",
 	// concatenation chains written without blanks, field accesses and calls as operands
 	/* 43 */ "local \x01 = 1\nlocal \x02 = 2\nlocal \x03 = 3\nlocal k = \x01..\x02..\x03..\x01\nlocal j = t.x..\x02..f(\x03)..\x01\n",
+	// a numeric for whose control variable reuses a name that its own bounds read (the only read of that name)
+	/* 44 */ "local \x01 = 1\nfor \x02 = \x03, 5 do\n g = \x02\nend\n",
+	/* 45 */ "for \x01 = 1, \x02, \x03 do\n g = \x01\nend\n",
 }
 
 // vpInstantiate fills the holes of template t with symbolic names; tag prefixes the variable names.
